@@ -49,7 +49,7 @@ CHECKS = {
         assumptions=["usize is 64 bit on the analysis host"],
     ),
     "C10": dict(
-        packs=["c10", "c12_o0", "c09", "c11"], level="other",
+        packs=["c10", "c12_o0", "c09", "c11", "c03"], level="other",
         explanation="Structural necessary conditions of framebuffer read-after-write, decided on the MIR of all set_pixel impls, as_image, pixel, BUFFER_SIZE and CHECK_N: "
                     "R10.1 the writer depends on the data order iff the reader's load does (parametricity), R10.2 endianness / documented bit position pairing, "
                     "R10.3 every path of set_pixel that stores has established 0<=x<WIDTH and 0<=y<HEIGHT and every path that does not store has established the negation of one of them (writes exactly inside), the stored byte of sub-byte depths is a read-modify-write of the same byte with mask 2^bpp-1, R10.6 the byte index has the padded-row layout ImageRaw reads, "
@@ -61,7 +61,7 @@ CHECKS = {
         assumptions=["usize is 64 bit on the analysis host"],
     ),
     "C14": dict(
-        packs=["c14", "c03"], level="other",
+        packs=["c14", "c03", "x_images"], level="other",
         explanation="R14.1 table check over every MonoFont constant as evaluated by rustc's const evaluator (atlas size, character size, data length, glyph count of the expanded NUL-marker mapping and replacement index versus the number of cells, unique characters): decides the clause 'each mapped character has its own index whose cell lies completely inside the font image' for every built-in font. "
                     "R14.2 decoration pairing and width, R14.3 colour roles of the three MonoFontDrawTarget flavours and their construction in draw_string, R14.4 the two decoders of the mapping grammar and index(), R14.5 glyph() cell arithmetic and guards, who-may-call SubImage::new_unchecked. R14.2 also: the effective_color table, and every successful path of draw_string / draw_whitespace that advanced has called draw_decorations with exactly its advance and position (must-pass-through).",
         claim="Decides the built-in font/mapping table clause for all fonts and the structural wiring of glyph lookup, colour roles and decorations; not the per-character advance arithmetic nor the bitmap contents.",
@@ -111,7 +111,7 @@ CHECKS = {
         assumptions=[],
     ),
     "C07": dict(
-        packs=["c07", "degree_c07", "c15", "x_images"], level="other",
+        packs=["c07", "degree_c07", "c15", "x_images", "c03"], level="other",
         explanation="R07.1 per-field effect summaries of the 12 Transform impls from MIR def-use (with mutation through &mut tracked): translate and translate_mut shift exactly the same fields, those are the position-carrying fields of the confirmed anchor table, every other field is copied unchanged, translate_mut returns self. "
                     "R07.3 the polyline consumers apply the extra Polyline::translate offset. R07.2 translation-degree abstract interpretation (positions degree 1, sizes/differences 0, doubled centres 2) of 36 query functions of the primitives (center, center_2x, bounding_box, contains, offset, styled_bounding_box, …) with callees inlined: no truncating division, |.|, variable scaling or mixed-degree comparison touches a position-dependent value and results have the degree of their role, hence these queries commute with translation for all inputs.",
         claim="Decides 'translate_mut has the same effect as translate', that exactly the anchors move, and translation-equivariance of bounding boxes / contains / centres of the listed primitives (and of the whole Rectangle API in C16); equivariance of rasterisation through the thick-join arithmetic and triangle area products is outside the domain (listed exclusions).",
@@ -142,7 +142,7 @@ CHECKS = {
         assumptions=[],
     ),
     "C01": dict(
-        packs=["c01", "c03", "c05"], level="other",
+        packs=["c01", "c03", "c05", "c17"], level="other",
         explanation="Renderer-agreement rules over MIR: R01.1 segment/colour pairing of the draw path and the three pixel paths, triangle colour-by-type tables in new/next/draw_styled; R01.2 both renderers of all nine primitives are fed the same geometry by role (areas of the unmodified primitive, identical ScanlineIterator arguments, draw = draw_iter(pixels iterator) for line/arc/sector, polyline translate handling); "
                     "R01.3/R03.6 the trait defaults and every native fill_contiguous pair the caller's colour stream with the caller's area; R14.3 font target colour roles equal between fill_contiguous and fill_solid; R01.4 scanline -> 1px rectangle; R01.5 image draw wiring.",
         claim="Decides that the alternative drawing paths are wired to the same generators, geometry inputs and colour roles; pixel-map equality itself (scanline/rectangle arithmetic, thin corners, collapsed fills) is not decided.",
@@ -152,7 +152,7 @@ CHECKS = {
         assumptions=[],
     ),
     "C09": dict(
-        packs=["c09", "c11"], level="other",
+        packs=["c09", "c11", "c03"], level="other",
         explanation="R09.1 every SubImage area is confined (single confining constructor, who-may-call new_unchecked, unconditional forwards that compose for nesting), R09.2 ImageRaw::new accepts exactly bytes_per_row*height with padded rows, data_width table, new_const, "
                     "R09.3 pixel()/draw_sub_image guard sets on path summaries (lookup/draw exactly when inside) and the index/skip forms, R09.4 colour count of ContiguousPixels by a potential function: remaining_x + remaining_y*width drops by exactly 1 on every pulling path of next(), stops only at 0, and new() must initialise it to width*height. R09.5 axis consistency of the image code (index = row * width + column).",
         claim="Decides length acceptance, guard placement, index/skip forms and the exact colour count of the stream (for an underlying iterator that does not run dry); colour order inside a row is inherited from C11's iterator rules.",
@@ -252,18 +252,18 @@ for _k in ("C16", "C19"):
 # rule packs of other properties that a property's behaviour depends on (DESIGN.md section 5, "Shared rule packs"):
 # they run inside this property's check as further necessary conditions, with the same keys
 DEPENDS = {
-    "C01": "Also runs the adapter / trait-default rules of C03 (the drawing paths a target offers include the adapters' fill methods and the defaults) and the membership rules of C05 (pixels() of the closed shapes is built on contains(), draw() on the scanline searches).",
+    "C01": "Also runs the adapter / trait-default rules of C03 (the drawing paths a target offers include the adapters' fill methods and the defaults), the membership rules of C05 (pixels() of the closed shapes is built on contains(), draw() on the scanline searches) and the line rules of C17 (draw() of a line is draw_iter over its pixels() on every path).",
     "C02": "Also runs the Rectangle rules of C16 (styled boxes are built with Rectangle::offset / with_corners / envelope).",
     "C03": "Also runs the Rectangle rules of C16 (clipping is Rectangle::intersection / contains / bottom_right).",
     "C05": "Also runs the corner rules of C18 (confined radii, quadrants) and the Rectangle rules of C16 (rectangle points / contains).",
     "C06": "Also runs the membership rules of C05 (the fill range of a styled scanline is fill_area.contains()) and the Rectangle rules of C16 (fill_area / stroke_area are Rectangle::offset).",
-    "C07": "Also runs the text layout rules of C15 (a text is positioned relative to its position on every path) and the image / polyline wiring R01.5, R01.2 (an image is drawn on target.translated(offset), a polyline adds its translate exactly once).",
+    "C07": "Also runs the text layout rules of C15 (a text is positioned relative to its position on every path) and the image / polyline wiring R01.5, R01.2 (an image is drawn on target.translated(offset), a polyline adds its translate exactly once) and the adapter / trait-default rules of C03 (a translated drawable that is cut by the target's edge goes through them).",
     "C08": "Also runs R01.4 (an empty scanline never reaches the width subtraction).",
-    "C09": "Also runs the raw load / iteration rules of C11 (pixel() and the colour stream read through RawDataSlice).",
-    "C10": "Also runs O0 of C12 (raw values are masked by construction: set_pixel ORs them in unmasked), the ImageRaw rules of C09 (as_image() / pixel() read through ImageRaw) and the raw load / iteration rules of C11.",
+    "C09": "Also runs the raw load / iteration rules of C11 (pixel() and the colour stream read through RawDataSlice) and the adapter / trait-default rules of C03 (the image's colour stream reaches the target through fill_contiguous of the adapters and the default).",
+    "C10": "Also runs O0 of C12 (raw values are masked by construction: set_pixel ORs them in unmasked), the ImageRaw rules of C09 (as_image() / pixel() read through ImageRaw) and the raw load / iteration rules of C11, and the trait-default rules of C03 (Framebuffer relies on the default fill methods).",
     "C11": "Also runs O0 of C12 (raw values are masked by construction).",
     "C12": "Also runs the raw load / store rules of C11 and the framebuffer rules of C10 (into_storage / to_bytes and the raw types are what they store).",
-    "C14": "Also runs the adapter / trait-default rules of C03 (glyphs reach the target through fill_contiguous / fill_solid of the font draw targets and the defaults).",
+    "C14": "Also runs the adapter / trait-default rules of C03 (glyphs reach the target through fill_contiguous / fill_solid of the font draw targets and the defaults) and the image wiring R01.5 (every glyph is drawn as an Image of a sub image).",
 }
 for _k, _v in DEPENDS.items():
     CHECKS[_k]["explanation"] = CHECKS[_k]["explanation"].rstrip() + " " + _v
